@@ -78,4 +78,18 @@ CATALOG = [
     dict(pid="C08", name="perturbative inverts the wrong factor", edits=[("eko/kernels/singlet.py", "ek = np.ascontiguousarray(uh) @ np.ascontiguousarray(e0) @ np.linalg.inv(ul)", "ek = np.linalg.inv(uh) @ np.ascontiguousarray(e0) @ np.ascontiguousarray(ul)")], expect="eko_perturbative"),
     dict(pid="C08", name="sum_u starts the power at a", edits=[("eko/kernels/singlet.py", "    p = 1.0\n    res = np.zeros((2, 2), dtype=np.complex128)", "    p = a\n    res = np.zeros((2, 2), dtype=np.complex128)")], expect="sum_u"),
     dict(pid="C08", name="harmless: U_vec R1 hoisted", harmless=True, edits=[("eko/kernels/non_singlet.py", "        U[1] = R1\n", "        U[1] = 1.0 * R1\n")]),
+    # ---- C16 -------------------------------------------------------------------------------------------
+    dict(pid="C16", name="MSBAR c31 back to 365/3", edits=[("eko/couplings.py", "matching_coeffs_up[3, 1] = 2645.0 / 27.0 - 67.0 / 9.0 * nf", "matching_coeffs_up[3, 1] = 365.0 / 3.0 - 67.0 / 9.0 * nf")], expect="C16.rg[MSBAR]"),
+    dict(pid="C16", name="POLE c30 digits swapped", edits=[("eko/couplings.py", "340.729 - 16.7981 * nf", "340.792 - 16.7981 * nf")], expect="c30_const"),
+    dict(pid="C16", name="wrong threshold ratio index", edits=[("eko/couplings.py", "L = np.log(self.thresholds_ratios[seg.nf - shift])", "L = np.log(self.thresholds_ratios[seg.nf - 3])")], expect="C16.a["),
+    dict(pid="C16", name="upward coefficients taken at nf+1", edits=[("eko/couplings.py", "else compute_matching_coeffs_up(self.hqm_scheme, seg.nf)", "else compute_matching_coeffs_up(self.hqm_scheme, seg.nf + 1)")], expect="C16.a["),
+    dict(pid="C16", name="coefficient indices transposed", edits=[("eko/couplings.py", "m_coeffs[n, l_pow]", "m_coeffs[l_pow, n]")], expect="C16.a["),
+    dict(pid="C16", name="matching uses the reference coupling", edits=[("eko/couplings.py", "fact += new_a[0] ** n * L**l_pow * m_coeffs[n, l_pow]", "fact += final_a[0] ** n * L**l_pow * m_coeffs[n, l_pow]")], expect="C16.a["),
+    dict(pid="C16", name="harmless: L hoisted into a local power", harmless=True, edits=[("eko/couplings.py", "fact += new_a[0] ** n * L**l_pow * m_coeffs[n, l_pow]", "fact += (new_a[0] ** n) * (L**l_pow) * m_coeffs[n, l_pow]")]),
+    # ---- C17 -------------------------------------------------------------------------------------------
+    dict(pid="C17", name="hit returns the cached array itself", edits=[("eko/couplings.py", "return self.cache[key].copy()", "return self.cache[key]")], expect="C17"),
+    dict(pid="C17", name="miss stores the returned array", edits=[("eko/couplings.py", "self.cache[key] = a_new.copy()", "self.cache[key] = a_new")], expect="C17"),
+    dict(pid="C17", name="key misses scale_from", edits=[("eko/couplings.py", "key = (float(a_ref[0]), float(a_ref[1]), nf, nl, scale_from, float(scale_to))", "key = (float(a_ref[0]), float(a_ref[1]), nf, nl, float(scale_to))")], expect="key_contains.scale_from"),
+    dict(pid="C17", name="a() works on a_ref in place", edits=[("eko/couplings.py", "final_a = self.a_ref.copy()", "final_a = self.a_ref")], expect="C17.a["),
+    dict(pid="C17", name="harmless: key built via a local", harmless=True, edits=[("eko/couplings.py", "key = (float(a_ref[0]), float(a_ref[1]), nf, nl, scale_from, float(scale_to))", "a0_, a1_ = float(a_ref[0]), float(a_ref[1])\n        key = (a0_, a1_, nf, nl, scale_from, float(scale_to))")]),
 ]
